@@ -6,18 +6,11 @@
 (*   - every text of 1..MaxLines lines, each line = a leading-whitespace   *)
 (*     shape followed by a body (exercises Indent / Dedent / BadIndent /   *)
 (*     comment-only and blank lines / closing dedents).                    *)
-(* The pattern table comes from doc/grammar.md (JSON written by the        *)
-(* harness).  It is bound by INSTANCE substitution of a cached constant    *)
-(* definition: a cfg override `Patterns <- Def' would be re-evaluated by   *)
-(* TLC at every reference.                                                 *)
+(* The pattern table comes from doc/grammar.md (see LexMachine).            *)
 (***************************************************************************)
-EXTENDS Integers, Sequences, FiniteSets, TLC, Json, IOUtils
+EXTENDS LexMachine
 
 CONSTANTS Alphabet, MaxLen, MaxLines
-VARIABLES text, lines, lineNo, col, pending, stack, out, status, err
-
-Table == JsonDeserialize(IOEnv.LEX_TABLE)
-INSTANCE LexMachine WITH Patterns <- Table.patterns
 
 ShortTexts == UNION {[1..n -> Alphabet] : n \in 0..MaxLen}
 
